@@ -198,7 +198,14 @@ class App:
 
     def tree(self):
         if getattr(self, "static", False):
-            return "static"
+            # the harness uses its compiled tables; the model gets the same tables as text
+            ports = static_macro_ports()
+            def item(n, m):
+                fid = "sub" if n.endswith("/") else ("subp" if n.endswith(":") and "::" not in n else "x")
+                return "p,%s,%s,%s" % (fid, hx(n), hx(m))
+            l0 = ";".join(item(n, m) for n, m in ports[:15])
+            l1 = ";".join(item(n, m) for n, m in ports[15:])
+            return "static@" + l0 + "|" + l1 + "|"
         out = []
         for lv in self.levels:
             items = []
@@ -738,6 +745,11 @@ def gen_level(rng, T, app, opts):
                     tg = rng.choice(order[:k]).name
                 p.eb_leaf = tg                                          # "enabled by" on a leaf (scan_deps reads it)
     lv.ports = list(leaves)
+    # rSelf(..., rEnabledBy(x)): the table's own switch
+    if T > 0 and rng.random() < opts.get("p_self", 0.0):
+        togg = [p for p in leaves if p.kind == "t" and p.fid != lv.enabler]
+        if togg:
+            lv.self_enabled_by = rng.choice(togg).name
     # children
     if T < LAST:
         kinds = []
@@ -751,6 +763,12 @@ def gen_level(rng, T, app, opts):
             c = Child(kf, fresh_name(KIDS))
             if kf == "ptr" and lv.enabler:
                 c.enabled_by = [p for p in leaves if p.fid == lv.enabler][0].name
+            elif kf == "sub" and rng.random() < opts.get("p_inner", 0.0):
+                # the switch lives inside the sub-tree: "enabled by" = "<child>/<toggle>"
+                nxt = app.levels[T + 1]
+                togg = [p for p in nxt.ports if isinstance(p, Leaf) and p.kind == "t" and p.fid != nxt.enabler]
+                if togg:
+                    c.enabled_by = c.name + "/" + rng.choice(togg).name
             elif kf in ("sub", "arr") and rng.random() < opts.get("p_soft", 0.0):
                 togg = [p for p in leaves if p.kind == "t" and p.fid != lv.enabler]
                 if togg:
